@@ -4,6 +4,8 @@ import Casket.Props.C04
 import Casket.Props.C05
 import Casket.Props.C06
 import Casket.Props.C12
+import Casket.Props.C13
 import Casket.Props.C14
 import Casket.Props.C17
 import Casket.Props.C18
+import Casket.Props.C19
